@@ -210,7 +210,7 @@ def exhaustive_calls(rng, isa, sz, tier, writes_only=False):
     rot1, rot2 = Rot(rng, pool), Rot(rng, pool)       # 1-D view class, n-D view class
     for N in range(1, 6):
         for M in range(1, 4):
-            calls.append("rv::flat1_all<%s,%s,%d,%d,%s>(%d,%du);" % (T, itys[(N + M) % len(itys)], N, M, vset(rot1.take(nvar if N == 5 or tier != "quick" else 3)), per, rng.randrange(NV)))
+            calls.append("rv::flat1_all<%s,%s,%d,%d,%s>(%d,%du);" % (T, itys[(N + M) % len(itys)], N, M, vset(rot1.take(nvar if N == 5 or tier != "quick" else 2)), per, rng.randrange(NV)))
     shapes = [(2, 3, 3, 2), (3, 2, 2, 3), (2, 3, 2, 3), (3, 2, 1, 3), (1, 5, 1, 3), (5, 1, 3, 1), (2, 2, 3, 3), (2, 3, 3, 1)]
     for (R, C, M, N) in (shapes[:2] + rng.sample(shapes[2:], 2) if tier == "quick" else shapes):
         calls.append("rv::ii_all<%s,%s,%s,%d,%d,%d,%d,%s>(%d,%du);" % (T, rng.choice(itys), rng.choice(itys), R, C, M, N, vset(rot2.take(nvar)), 1 if tier == "quick" else 3, rng.randrange(NV)))
@@ -303,19 +303,25 @@ def real_groups(tier, seed):
             ms = sorted(set([V, 2 * V + 1])) if tier == "quick" else sizes_around(V, rng, 6)
             for q, M in enumerate(ms):
                 calls.append("rr::flat1<%s,%s,%d,%d>(%du,%d);" % (t, ity(q), other(M + 1, {M}), M, sd(), cnt))
-            for _ in range(1 if tier == "quick" else 4):
+            # quick: float/int64 get {ii, in, if}, double/int32 get {flat2, ni, fi}: every overload once per element size per ISA
+            half = (ti in (0, 3))
+            want = lambda name: tier != "quick" or (name in ("ii", "in", "if")) == half
+            for _ in range((1 if want("ii") else 0) if tier == "quick" else 4):
                 M, N = dims_for(rng.choice(["vt", "vo"]), V, rng)
                 R = other(max(M, 2), {M, N}); C = other(max(N, 2), {R, M, N})
                 calls.append("rr::ii<%s,%s,%s,%d,%d,%d,%d>(%du,%d);" % (t, ity(2), ity(3), R, C, M, N, sd(), cnt))
-            P, Q = dims_for("vt", V, rng)
-            R = rng.randint(2, 5); C = other((P * Q + R - 1) // R + 1, {R, P, Q})
-            calls.append("rr::flat2<%s,%s,%d,%d,%d,%d>(%du,%d);" % (t, ity(1), R, C, P, Q, sd(), cnt - 1))
+            if want("flat2"):
+                P, Q = dims_for("vt", V, rng)
+                R = rng.randint(2, 5); C = other((P * Q + R - 1) // R + 1, {R, P, Q})
+                calls.append("rr::flat2<%s,%s,%d,%d,%d,%d>(%du,%d);" % (t, ity(1), R, C, P, Q, sd(), cnt - 1))
             for sw in (0, 1):
+                if not want("in" if sw == 0 else "ni"): continue
                 M = ms[(sw + ti) % len(ms)]
                 if not sw: R = other(max(M, 2), {M}); C = other(3, {R, M})
                 else: C = other(max(M, 2), {M}); R = other(3, {C, M})
                 calls.append("rr::in_<%s,%s,%s,%d,%d,%d,%d>(%du,%d);" % (t, ity(3 + sw), nums[(ti + sw + ix) % 5], R, C, M, sw, sd(), cnt - 1))
             for sw in (0, 1):
+                if not want("if" if sw == 0 else "fi"): continue
                 K, fsz = dims_for(["vt", "vo"][(sw + ti) % 2], V, rng)
                 F = rng.randint(1, 2); S = rng.randint(1, 2)
                 end = F + (fsz - 1) * S + 1
@@ -324,7 +330,7 @@ def real_groups(tier, seed):
                 R, C = (O, D) if not sw else (D, O)
                 calls.append("rr::fs<%s,%s,%d,%d,%d,%d,%d,%d,%d>(%du,%d);" % (t, ity(5 + sw), R, C, K, F, L, S, sw, sd(), cnt - 1))
             calls.append("rr::filt<%s,%d>(%du,%d);" % (t, 2 * V + 3, sd(), cnt + 2))
-            if tier == "thorough" or ti % 2 == 1:
+            if tier == "thorough" or ti == (ix + seed) % 4:
                 calls.append("rr::filt<%s,3,%d>(%du,%d);" % (t, V + 1, sd(), cnt + 1))
             groups.append({"key": "%s/%s" % (isa, t), "header": "random_views_real.h", "isa": isa, "opt": "-O2", "calls": calls, "pre": PRE})
             if tier == "thorough" or (ti + ix) % 4 == 0:
@@ -359,7 +365,7 @@ def run(tier, seed):
              "over the symbolic carrier; exhaustive: every index vector of length <= 3 over parents of <= 5 elements and every pair of per-axis index vectors on small 2-D parents, "
              "all 2^n masks n <= 10 (quick) / 12 (thorough); seeded: lengths around multiples of the vector width for all seven overloads; "
              "non-trivial = every index-view case, and mask cases whose mask is neither all-true nor all-false",
-        nontrivial=nontrivial, per_tu=24,
+        nontrivial=nontrivial, per_tu=36,
         extra_cov={"oracle_configs": sorted(set(g["key"] for g in real_groups(tier, seed))),
                    "variants": ["%s %s %s%s" % ("read" if a == 0 else "write", OPS[o], TREES[t], " const-parent" if c else "") for (a, o, t, c) in VARS],
                    "overloads": ["flat1 (1-D parent, one index tensor)", "flat2 (n-D parent, one index tensor of flat positions)", "ii (index x index)",
